@@ -2,6 +2,7 @@ package rules
 
 import (
 	"fmt"
+	"go/constant"
 	"go/token"
 	"go/types"
 	"strings"
@@ -58,6 +59,78 @@ type retransLoop struct {
 	sel    *ssa.Select
 	idx    ssa.Value // select index extract
 	timerK int       // state index of the retransmit timer (-1 none)
+	// when the select lives in a boolean helper called from fn (wait-for-answer-or-timeout helpers):
+	waitCall *ssa.Call    // the call of the helper in fn
+	caseVal  map[int]bool // what the helper returns when the select picks state k
+}
+
+// waitAt: the instruction in fn at which the loop waits (the select, or the call of the helper holding it).
+func (rl *retransLoop) waitAt() ssa.Instruction {
+	if rl.waitCall != nil {
+		return rl.waitCall
+	}
+	if rl.sel != nil {
+		return rl.sel
+	}
+	return nil
+}
+
+// chanInFn: the channel of select state k expressed in fn (a helper parameter is mapped to the argument).
+func (rl *retransLoop) chanInFn(k int) ssa.Value {
+	ch := rl.sel.States[k].Chan
+	if rl.waitCall != nil {
+		if p, ok := flow.Peel(ch).(*ssa.Parameter); ok {
+			if i := paramIndex(p.Parent(), p); i < len(rl.waitCall.Call.Args) {
+				return rl.waitCall.Call.Args[i]
+			}
+		}
+	}
+	return ch
+}
+
+// selectHelper: h consists of one blocking select whose every case returns a boolean constant; result maps
+// the select state to that constant (states whose value cannot be determined are left out).
+func selectHelper(h *ssa.Function) (*ssa.Select, map[int]bool) {
+	if h == nil || h.Blocks == nil || h.Signature.Results().Len() != 1 {
+		return nil, nil
+	}
+	if b, ok := h.Signature.Results().At(0).Type().Underlying().(*types.Basic); !ok || b.Kind() != types.Bool {
+		return nil, nil
+	}
+	var sel *ssa.Select
+	n := 0
+	flow.Instrs(h, func(in ssa.Instruction) {
+		if s, ok := in.(*ssa.Select); ok {
+			sel = s
+			n++
+		}
+	})
+	if n != 1 {
+		return nil, nil
+	}
+	tmp := &retransLoop{fn: h, sel: sel}
+	for _, ref := range flow.Referrers(sel) {
+		if ex, ok := ref.(*ssa.Extract); ok && ex.Index == 0 {
+			tmp.idx = ex
+		}
+	}
+	vals := map[int]bool{}
+	flow.Instrs(h, func(in ssa.Instruction) {
+		ret, ok := in.(*ssa.Return)
+		if !ok || len(ret.Results) != 1 {
+			return
+		}
+		k, isK := ret.Results[0].(*ssa.Const)
+		if !isK || k.Value == nil || k.Value.Kind() != constant.Bool {
+			return
+		}
+		for st := range sel.States {
+			if tmp.caseDominates(st, ret.Block()) {
+				vals[st] = constant.BoolVal(k.Value)
+			}
+		}
+	})
+	return sel, vals
 }
 
 // findRetransLoop locates the loop of fn that contains a Message write.
@@ -86,6 +159,19 @@ func (c *Ctx) findRetransLoop(fn *ssa.Function) *retransLoop {
 					rl.idx = ex
 				}
 			}
+		} else {
+			// the wait may be a call of a select helper inside the loop
+			for b := range l.Blocks {
+				for _, in := range b.Instrs {
+					if hc, ok := in.(*ssa.Call); ok {
+						if h := flow.StaticCallee(hc); h != nil && c.P.IsLibrary(h) {
+							if sel, vals := selectHelper(h); sel != nil && len(vals) == len(sel.States) {
+								rl.sel, rl.waitCall, rl.caseVal = sel, hc, vals
+							}
+						}
+					}
+				}
+			}
 		}
 		return rl
 	}
@@ -94,6 +180,12 @@ func (c *Ctx) findRetransLoop(fn *ssa.Function) *retransLoop {
 
 // caseBlock returns the block entered when the select picks state k.
 func (rl *retransLoop) caseBlock(k int) *ssa.BasicBlock {
+	if rl.waitCall != nil {
+		if b, i := rl.helperEdge(k); b != nil {
+			return b.Succs[i]
+		}
+		return nil
+	}
 	for _, b := range rl.fn.Blocks {
 		ifi, ok := b.Instrs[len(b.Instrs)-1].(*ssa.If)
 		if !ok {
@@ -113,16 +205,27 @@ func (rl *retransLoop) caseBlock(k int) *ssa.BasicBlock {
 // checkBound: R "iteration count = MaxRetransmits + 1".
 func (c *Ctx) checkRetransBound(rl *retransLoop, rule, key string) {
 	r := c.R
-	ifi, ok := rl.loop.Head.Instrs[len(rl.loop.Head.Instrs)-1].(*ssa.If)
-	if !ok {
-		r.Fail(rule, key, c.pos(rl.write), "the transmission loop has no bounding condition at its head: the request can be retransmitted without limit")
-		return
+	// the bounding condition: a test inside the loop that every transmission passes (the loop condition, or a
+	// test at the top of the body), comparing a loop counter with the bound
+	var ifi *ssa.If
+	var rel rel
+	for _, g := range flow.Guards(rl.write) {
+		if !rl.loop.Blocks[g.If.Block()] {
+			continue
+		}
+		rr, ok := condRel(g.If.Cond, g.Taken)
+		if !ok {
+			continue
+		}
+		_, aPhi := rr.a.(*ssa.Phi)
+		_, bPhi := rr.b.(*ssa.Phi)
+		if aPhi || bPhi {
+			ifi, rel = g.If, rr
+			break
+		}
 	}
-	// taken edge = into the loop body
-	taken := rl.loop.Blocks[ifi.Block().Succs[0]]
-	rel, ok := condRel(ifi.Cond, taken)
-	if !ok {
-		r.Undecided(rule, key, c.pos(ifi), "loop condition is not a comparison")
+	if ifi == nil {
+		r.Fail(rule, key, c.pos(rl.write), "no counter test bounds the transmissions of the loop: the request can be retransmitted without limit")
 		return
 	}
 	// normalise to counter OP bound
@@ -190,7 +293,7 @@ func (c *Ctx) checkRetransBound(rl *retransLoop, rule, key string) {
 // write is the case of the time.After(<field>) timer.
 func (c *Ctx) checkTimerSpacing(rl *retransLoop, field, rule, key string) {
 	r := c.R
-	if rl.sel == nil || rl.idx == nil {
+	if rl.sel == nil || rl.waitAt() == nil || (rl.idx == nil && rl.waitCall == nil) {
 		r.Fail(rule, key, c.pos(rl.write), "the transmission loop does not wait in a select: retransmissions are not spaced")
 		return
 	}
@@ -199,7 +302,7 @@ func (c *Ctx) checkTimerSpacing(rl *retransLoop, field, rule, key string) {
 		return
 	}
 	isW := func(in ssa.Instruction) bool { return in == ssa.Instruction(rl.write) }
-	if p := flow.PathAvoiding(rl.fn, rl.write, isW, func(in ssa.Instruction) bool { return in == ssa.Instruction(rl.sel) }); p != nil {
+	if p := flow.PathAvoiding(rl.fn, rl.write, isW, func(in ssa.Instruction) bool { return in == rl.waitAt() }); p != nil {
 		r.Fail(rule, key, c.pos(rl.write), "a cycle through the write does not pass the select that waits for the answer / timer", c.witness(p)...)
 		return
 	}
@@ -232,6 +335,12 @@ func (c *Ctx) checkTimerSpacing(rl *retransLoop, field, rule, key string) {
 
 // caseDominates: every path to block x takes the edge "select picked state k".
 func (rl *retransLoop) caseDominates(k int, x *ssa.BasicBlock) bool {
+	if rl.waitCall != nil {
+		if b, i := rl.helperEdge(k); b != nil {
+			return flow.EdgeDominates(b, i, x)
+		}
+		return false
+	}
 	for _, b := range rl.fn.Blocks {
 		ifi, ok := b.Instrs[len(b.Instrs)-1].(*ssa.If)
 		if !ok {
@@ -246,4 +355,38 @@ func (rl *retransLoop) caseDominates(k int, x *ssa.BasicBlock) bool {
 		}
 	}
 	return false
+}
+
+// helperEdge: the branch edge in fn taken exactly when the select helper reported state k (its boolean result
+// is unique to that state).
+func (rl *retransLoop) helperEdge(k int) (*ssa.BasicBlock, int) {
+	v, ok := rl.caseVal[k]
+	if !ok {
+		return nil, 0
+	}
+	for kk, vv := range rl.caseVal {
+		if kk != k && vv == v {
+			return nil, 0 // not distinguishable
+		}
+	}
+	for _, b := range rl.fn.Blocks {
+		ifi, ok := b.Instrs[len(b.Instrs)-1].(*ssa.If)
+		if !ok {
+			continue
+		}
+		cond, neg := flow.Cond(ifi.Cond, true)
+		if cond != ssa.Value(rl.waitCall) {
+			continue
+		}
+		// succ[0] taken when cond (after negation) is true
+		want := v
+		if neg {
+			want = !want
+		}
+		if want {
+			return b, 0
+		}
+		return b, 1
+	}
+	return nil, 0
 }
